@@ -176,9 +176,10 @@ double genTurnAngle(vf::Ctx & c, const char * ncls, const char * nk, const char 
 
 double genPitch(vf::Ctx & c)
 {
-  size_t cls = c.s.pick("pitch_class", {1, 6, 3});
+  size_t cls = c.s.pick("pitch_class", {1, 6, 3, 2});
   if (cls == 0) {return 0.0;}
   if (cls == 1) {return c.s.r("pitch", -PITCH_MAX, PITCH_MAX);}
+  if (cls == 3) {return c.s.near("pitch", 0.0, 2.0, 15.0, -PITCH_MAX, PITCH_MAX);}   // almost level: 1e-2 .. 1e-15 rad, +-ulps
   bool up = c.s.flag("pitch_up");
   return c.s.near("pitch", up ? PITCH_MAX : -PITCH_MAX, 3.0, 15.0, -PITCH_MAX, PITCH_MAX);
 }
@@ -723,7 +724,7 @@ void rotationHelperReuse(vf::Ctx & c)
   int n = static_cast<int>(c.s.i("n_inits", 2, 6));
   std::vector<Eigen::Vector3d> angles;
   std::vector<int> overload;
-  bool repeated = false;
+  bool repeated = false, zeroed = false;
   for (int k = 0; k < n; ++k) {
     if (k >= 1 && c.s.flag("repeat_earlier_angles", 1, 3)) {
       angles.push_back(angles[static_cast<size_t>(c.s.i("which_earlier", 0, k - 1))]);
@@ -731,10 +732,15 @@ void rotationHelperReuse(vf::Ctx & c)
     } else {
       angles.push_back(Eigen::Vector3d(c.s.r("roll", -2 * PI_ + 1e-9, 2 * PI_ - 1e-9), c.s.r("pitch", -(PI_ / 2 - 1e-3), PI_ / 2 - 1e-3), c.s.r("yaw", -2 * PI_ + 1e-9, 2 * PI_ - 1e-9)));
     }
+    // an axis angle that is exactly zero (an "axis not used" shortcut must still reset what an earlier init left there)
+    int zeroMask = static_cast<int>(c.s.pick("exact_zero_axes", {4, 1, 1, 1, 1}));
+    if (zeroMask >= 1 && zeroMask <= 3) {angles.back()[zeroMask - 1] = 0.0; zeroed = true;}
+    if (zeroMask == 4) {angles.back()[0] = 0.0; angles.back()[1] = 0.0; zeroed = true;}
     overload.push_back(static_cast<int>(c.s.i("init_overload", 0, 1)));
   }
   bool startDefault = c.s.flag("start_from_default_object");
   if (repeated) {c.label("same-angles-initialised-again");}
+  if (zeroed) {c.label("exactly-zero-angle-on-an-axis");}
   c.nontrivial();
   c.commit();
   rc_::SmartRotation3D obj = startDefault ? rc_::SmartRotation3D() : rc_::SmartRotation3D(angles[0]);
